@@ -283,4 +283,18 @@ def serverUp (S : ServerParams) : List ConnEv → Bool
   | .drop :: r => if S.doneOnlyOnQuit then serverUp S r else false
   | .connect :: r => serverUp S r
 
+/-- fact: the stock `ReattachFunc` decides "is the plugin there?" by CONNECTING to its address (`net.Dial`, for every
+network) and nothing else (no look at the file system) -/
+structure ReattachParams where
+  probeConnects : Bool
+  deriving DecidableEq, Repr
+
+def ReattachParams.Good (R : ReattachParams) : Prop := R.probeConnects = true
+instance (R : ReattachParams) : Decidable R.Good := by unfold ReattachParams.Good; exact inferInstance
+
+/-- does reattaching fail with the process-not-found error when NOTHING listens on the address?  `socketFileLeft`: the
+target crashed, so its Unix socket file was never removed.  A probe that connects gets "connection refused" either way;
+a probe that looks at the file is fooled by the left-over file. -/
+def reattachNotFound (R : ReattachParams) (socketFileLeft : Bool) : Bool := R.probeConnects || !socketFileLeft
+
 end GoPlugin.Lifecycle
